@@ -163,7 +163,20 @@ func genMessage(r *rand.Rand, from, to string, maxBody int) *fbb.Message {
 		m.AddCc([]string{"LA1B", "foo@example.com", "N0CALL@winlink.org"}[r.Intn(3)])
 	}
 	subjects := []string{"Hello", "Test message", "//WL2K Z/ flash traffic", "//WL2K O/ immediate", "//WL2K P/ priority", "Blåbærsyltetøy på brødskiva", "Re: =?x", "a", strings.Repeat("long subject ", 8)}
-	m.SetSubject(subjects[r.Intn(len(subjects))])
+	subj := subjects[r.Intn(len(subjects))]
+	if r.Intn(8) == 0 {
+		// the longest non-ASCII subjects Message.Validate admits (the Subject header may have 128 bytes)
+		for _, n := range []int{36, 30, 20} {
+			m.SetSubject(strings.Repeat([]string{"æ", "ø", "é"}[r.Intn(3)], n-r.Intn(3)))
+			if len(m.Header.Get("Subject")) <= 128 {
+				break // (the other conditions of Validate are met by the rest of this function)
+			}
+		}
+		subj = ""
+	}
+	if subj != "" {
+		m.SetSubject(subj)
+	}
 	var body strings.Builder
 	n := 1 + r.Intn(maxBody)
 	switch r.Intn(3) {
